@@ -76,6 +76,21 @@ func ruleC14Range(e *Env) {
 				}
 				return out
 			}
+		case *ssa.BinOp:
+			// products of small sets (sign * result)
+			if x.Op == token.MUL {
+				a, b := valSet(x.X, depth+1), valSet(x.Y, depth+1)
+				if a[1<<40] || b[1<<40] || len(a)*len(b) > 64 {
+					return top
+				}
+				out := map[int64]bool{}
+				for p := range a {
+					for q := range b {
+						out[p*q] = true
+					}
+				}
+				return out
+			}
 		case *ssa.Phi:
 			out := map[int64]bool{}
 			for _, ed := range x.Edges {
